@@ -34,6 +34,7 @@ package ro
 //@   ensures [a-subscriber-that-joins-a-kept-generation-leaves-its-termination-marks|C11] !called(call.NewSubscription) ==> !did_store(hasBeenResetOnError) && !did_store(hasBeenResetOnCompletion)
 //@   ensures [creates-only-when-none|C11] called(call.NewSubscription) ==> atlock(subject) == nil || atlock(sourceSubscription) == nil
 //@   ensures [source-subscribed-only-by-creator|C11] called(source.SubscribeWithContext) ==> called(call.NewSubscription)
+//@   ensures [the-creator-connects-the-source|C11] called(call.NewSubscription) && !panics ==> called(source.SubscribeWithContext)
 //@   ensures [source-subscribed-at-most-once|C11] count(source.SubscribeWithContext) <= 1
 //@   ensures [one-critical-section|C11,C13] count(lock.mu) == 1
 
